@@ -382,6 +382,9 @@ class Interp:
         self.func_stack: list[str] = []
         self.closure_decorators: dict[str, list] = {}
         self.reads: list[tuple] = []  # (base, idx, loops, func) of every subscript read of a symbolic array
+        self.while_once = None  # callback(node) -> bool: interpret exactly one iteration
+        self.while_iterations: list = []
+        self.while_exit = None
         self.loop_cases = None  # callback(var, lo, hi, node) -> [(label, value)] | None
         self.case_stack: list[tuple[str, str]] = []
         self.depth = 0
@@ -916,7 +919,7 @@ class Interp:
                         except _Continue:
                             pass
                         except _Break:
-                            self.fail(st, "break inside a case-split loop")
+                            pass  # the case ends here
                         finally:
                             self.case_stack.pop()
                     return
@@ -966,6 +969,16 @@ class Interp:
             self.exec_block(st.orelse, env)
 
     def exec_While(self, st, env):
+        if self.while_once is not None and self.while_once(st):
+            # rule-requested: interpret one generic iteration of the loop
+            self.while_iterations.append(st)
+            try:
+                self.exec_block(st.body, env)
+            except (_Continue, _Break) as e:
+                self.while_exit = "break" if isinstance(e, _Break) else "continue"
+            else:
+                self.while_exit = "fall"
+            return
         # only loops with concretely decidable conditions are followed
         n = 0
         while self.truth(self.eval(st.test, env), st.test):
@@ -1459,10 +1472,14 @@ class Interp:
         if isinstance(obj, WholeArr):
             if attr == "copy":
                 return lambda: WholeArr(obj.name + "_copy", obj.val)
-            if attr in ("shape", "dtype", "ndim", "size"):
+            if attr == "size":
+                return sp.Symbol("array_size", integer=True, positive=True)
+            if attr in ("shape", "dtype", "ndim"):
                 return Opaque(f"{obj.name}.{attr}")
-            if attr in ("real", "imag"):
+            if attr in ("real", "imag", "flat"):
                 return obj
+            if attr == "max":
+                return lambda *a, **k: sp.Function("amax")(obj.val)
             self.fail(node, f"attribute `{attr}` of array value")
         if isinstance(obj, Vec):
             if attr == "shape":
@@ -1491,8 +1508,12 @@ class Interp:
             if attr in ("add", "update", "discard"):
                 return getattr(obj, attr)
         if isinstance(obj, sp.Basic):
-            if attr in ("real",):
+            if attr in ("real", "flat"):
                 return obj
+            if attr == "max":
+                return lambda *a, **k: sp.Function("amax")(obj)
+            if attr == "size":
+                return sp.Symbol("array_size", integer=True, positive=True)
             if attr == "conjugate":
                 return lambda: sp.conjugate(obj)
             if attr == "copy":
